@@ -26,16 +26,21 @@ def batches(strings, size):
         yield strings[i:i + size]
 
 
-def case_for(mlr, flags, src, chunk):
+# the verb's own -S and -F are "No-op pass-through[s] for backward compatibility with Miller 5" (mlr put --help): the
+# classification is the same however the verb that consults it is spelled
+VERB_SPELLINGS = [["-q"], ["-q", "-S"], ["-q", "-F"], ["-S", "-q"], ["-F", "-q", "-S"]]
+
+
+def case_for(mlr, flags, src, chunk, verbflags=("-q",)):
     if src == "field":
         body = "".join("x=%s\n" % s for s in chunk)
-        argv = [mlr, "--ifs", "tab"] + flags + ["put", "-q", PROGRAM]
+        argv = [mlr, "--ifs", "tab"] + flags + ["put"] + list(verbflags) + [PROGRAM]
     elif src == "jsonnumber":
         body = "".join('{"x": %s}\n' % s for s in chunk)
-        argv = [mlr, "--ijsonl"] + flags + ["put", "-q", PROGRAM]
+        argv = [mlr, "--ijsonl"] + flags + ["put"] + list(verbflags) + [PROGRAM]
     else:
         body = "".join('{"x": %s}\n' % json.dumps(s) for s in chunk)
-        argv = [mlr, "--ijsonl"] + flags + ["put", "-q", PROGRAM]
+        argv = [mlr, "--ijsonl"] + flags + ["put"] + list(verbflags) + [PROGRAM]
     return {"argv": argv, "stdin": body, "timeout_ms": 60000, "max_out": 64 << 20}
 
 
@@ -79,6 +84,13 @@ def run(tier, seed):
             for chunk in batches(pool, 4000):
                 cases.append(case_for(mlr, flags, src, chunk))
                 meta.append((flags, src, chunk))
+            # the boundary spellings and a seeded sample once more under every spelling of the verb's legacy flags
+            probe = sorted(space["boundary"]) + rnd.sample(pool, min(len(pool), 400))
+            if src == "jsonnumber":
+                probe = [s for s in probe if JSON_NUMBER.match(s)]
+            for vf in VERB_SPELLINGS[1:]:
+                cases.append(case_for(mlr, flags, src, probe, vf))
+                meta.append((flags, src, probe))
     res = vlib.run_cases(cases)
     vlib.confirm_timeouts(cases, res)
     obs = []
